@@ -65,9 +65,20 @@ class Real:
 
     def of_py(self, py):
         try:
-            return self.canon(self.cls.from_python_object(py))
+            res = self.canon(self.cls.from_python_object(py))
         except Exception as e:
-            return classify(e)
+            res = classify(e)
+        # a dict is a dict in whatever order its keys were written: the same object with the keys of every dict interleaved
+        # (odd positions first, then the even ones, reversed) must convert alike
+        alt = _reorder_dicts(py)
+        if alt is not None:
+            try:
+                res2 = self.canon(self.cls.from_python_object(alt))
+            except Exception as e:
+                res2 = classify(e)
+            if res2 != res:
+                Real.order_dependent.append((self.t, py, alt, res, res2))
+        return res
 
     def layout(self):
         """('dict', [(path, name)]) | ('tuple', [path])"""
@@ -76,6 +87,31 @@ class Real:
             return 'tuple', [idx[i] for i in range(len(idx))]
         return 'dict', list(p2k.items())
 
+
+def _reorder_dicts(o):
+    """the same object with every dict of three or more keys re-keyed in an interleaved order; None when nothing changes"""
+    changed = [False]
+
+    def go(x):
+        if isinstance(x, dict):
+            items = [(k, go(v)) for k, v in x.items()]
+            if len(items) >= 3:
+                items = items[1::2] + items[0::2][::-1]
+                changed[0] = True
+            return dict(items)
+        if isinstance(x, list):
+            return [go(v) for v in x]
+        if isinstance(x, tuple):
+            return tuple(go(v) for v in x)
+        return x
+    try:
+        r = go(o)
+    except Exception:      # noqa: BLE001 — unhashable keys etc.: leave it
+        return None
+    return r if changed[0] else None
+
+
+Real.order_dependent = []
 
 _FACTS = {}
 
@@ -577,6 +613,14 @@ def run(ctx):
         if f is None and ok and ctx.evaluations % 3 == 0:
             contract_data(ctx, t, v, real, inst, py)
     entrypoint_stream(ctx)
+    # dict key order (collected by Real.of_py): the smallest offending object
+    ctx.extra['dict_reorderings_checked'] = True
+    if Real.order_dependent:
+        t, py, alt, res, res2 = min(Real.order_dependent, key=lambda x: len(repr(x[1])))
+        ctx.violation(f'from_python_object-depends-on-dict-order[{G.ty_str(t)}]'[:200],
+                      f'{G.ty_str(t)}: from_python_object({py!r}) = {res if isinstance(res, str) else G.val_str(res)}, but with the same keys written in the order {alt!r}: '
+                      f'{res2 if isinstance(res2, str) else G.val_str(res2)}', {'type': G.ty_expr(t), 'object': repr(py), 'reordered': repr(alt)})
+        Real.order_dependent.clear()
 
 
 STRING_SPOILERS = ['\t', '\x01', '\x7f', '\x00', '\r', '\x1f', 'é', '\n']      # the last one leaves a valid Michelson string
